@@ -5,12 +5,16 @@ package regal.rules.bugs["argument-always-wildcard"]
 import data.regal.ast
 import data.regal.config
 import data.regal.result
-import data.regal.util
 
 report contains violation if {
 	some name, functions in _function_groups
 
-	fn := util.any_set_item(functions)
+	# report the first definition in source order (any_set_item would pick by the
+	# order of the terms, which depends on how the location strings happen to sort)
+	fn := [function |
+		some function in ast.functions
+		function in functions
+	][0]
 
 	some pos in numbers.range(0, count(fn.head.args) - 1)
 
